@@ -214,8 +214,46 @@ int main(int argc, char** argv) {
             add("quit", "quit", c.chance(1, 3) ? sess::P_NOW : sess::P_BESTMOVE);
             return s;
         };
+        // ponder sessions on roots with one legal move or very few: ponderhit changes the time limits of a running search from
+        // the protocol thread (EngineControl::ponderHit has a branch of its own for a forced move)
+        auto forcedPonder = [&](Choices& c) {
+            sess::Session s;
+            auto add = [&](const std::string& kind, const std::string& text, int pace = sess::P_NOW, int arg = 0) {
+                sess::Cmd x; x.kind = kind; x.text = text; x.pace = pace; x.paceArg = arg; s.cmds.push_back(x); return &s.cmds.back();
+            };
+            add("setoption", "setoption name Threads value " + std::to_string(c.range(2, 4)));
+            add("setoption", "setoption name Ponder value true");
+            static const std::vector<std::string> roots = {   // legal-move counts checked with refchess
+                "4r1k1/ppp2ppp/8/8/8/3n4/PPP2PPP/RNBQKB1R w KQ - 0 1",              // double check: 1 legal move
+                "4k3/8/8/8/8/8/4q3/4K3 w - - 0 1",                                  // 1 legal move (Kxe2)
+                "rnbqkbnr/ppppp1pp/8/5p1Q/4P3/8/PPPP1PPP/RNB1KBNR b KQkq - 1 2",    // 1 legal move (g6)
+                "7k/8/8/8/8/8/5q2/6K1 w - - 0 1", "8/8/8/8/8/8/1k1p4/3K4 w - - 0 1", // 2 legal moves
+                "r3k3/8/8/8/8/8/7p/R3K2r w Q - 0 1",                                // 3 legal moves
+                "rnbqkbnr/pppppppp/8/8/8/8/PPPPPPPP/RNBQKBNR w KQkq - 0 1"};
+            int n = c.range(1, 4);
+            for (int i = 0; i < n; i++) {
+                const std::string& f = roots[(size_t)c.pick((int)roots.size())];
+                add("position", "position fen " + f, i ? sess::P_BESTMOVE : sess::P_NOW);
+                int k = c.pick(3);
+                sess::Cmd* g = add("go", k == 0 ? "go ponder wtime " + std::to_string(c.range(1000, 60000)) + " btime " + std::to_string(c.range(1000, 60000))
+                                       : k == 1 ? "go ponder movetime " + std::to_string(c.range(50, 500)) : "go ponder wtime 3000 btime 3000 winc 100 binc 100");
+                g->goFen = f; g->goPonder = true; g->goHasLimit = true;
+                int w = c.pick(3);
+                add("ponderhit", "ponderhit", w == 0 ? sess::P_NOW : w == 1 ? sess::P_DEPTH : sess::P_SLEEP, w == 1 ? c.range(1, 4) : c.range(5, 120));
+                if (c.chance(1, 3)) add("isready", "isready", sess::P_NOW);
+                add("stop", "stop", sess::P_SLEEP, c.range(20, 400)); // a forced move is answered at once after ponderhit; otherwise cut the search short
+            }
+            add("quit", "quit", sess::P_BESTMOVE);
+            return s;
+        };
         vh::runProp("sessions", a.cases, 3.0, [&](Choices& c) {
-            int tmpl = c.pick(5);
+            int tmpl = c.pick(6);
+            if (tmpl == 2) {
+                sess::Session s = forcedPonder(c);
+                st.cls("ponder / ponderhit session on forced-move roots");
+                runSession("sessions", s, st, 1);
+                return;
+            }
             if (tmpl == 1) {
                 sess::Session s = treeChurn(c);
                 st.cls("worker-tree churn session (Threads >= 6, thread count changes between searches)");
